@@ -4,7 +4,7 @@
    where "=" means the implementation's observation equals the model's, and props are the ids of
    the properties whose Spec the implementation's observation falsifies on this input. *)
 From Coq Require Import String.
-Require Import Base Node Command Glob Selector Policy.
+Require Import Base Node Command Glob Selector Policy Chain.
 Local Open Scope N_scope.
 
 Definition nstr (n : node) : str := match n with Str s => s | Bytes s => s | _ => [] end.
@@ -265,11 +265,112 @@ Definition eng_policy (inp impl : node) : verdict :=
   | _ => bad
   end.
 
+(* ---------------- engine: chain (C01-C05) ---------------- *)
+Definition oz (n : node) : option Z := match n with Int z => Some z | _ => None end.
+Definition mget (k : string) (n : node) : node :=
+  match n with Map m => match map_get (lit k) m with Some v => v | None => Null end | _ => Null end.
+
+Definition dlg_of_node (n : node) : option dlg :=
+  match policy_of_nodes (nlist (mget "pol" n)) with
+  | None => None
+  | Some p => Some {| d_iss := nstr (mget "iss" n); d_aud := nstr (mget "aud" n); d_sub := nstr (mget "sub" n);
+                      d_cmd := nstr (mget "cmd" n); d_pol := p; d_nbf := oz (mget "nbf" n); d_exp := oz (mget "exp" n) |}
+  end.
+
+Definition inv_of_node (n : node) : inv :=
+  {| i_iss := nstr (mget "iss" n); i_sub := nstr (mget "sub" n); i_aud := nstr (mget "aud" n);
+     i_cmd := nstr (mget "cmd" n); i_args := mget "args" n; i_prf := map nstr (nlist (mget "prf" n));
+     i_exp := oz (mget "exp" n) |}.
+
+Fixpoint store_of_nodes (l : list node) : option (list (str * dlg)) :=
+  match l with
+  | [] => Some []
+  | List [c; d] :: r => match dlg_of_node d, store_of_nodes r with
+                        | Some d', Some s => Some ((nstr c, d') :: s)
+                        | _, _ => None end
+  | _ => None
+  end.
+Fixpoint store_get (s : list (str * dlg)) (c : str) : option dlg :=
+  match s with [] => None | (k, d) :: r => if str_eqb k c then Some d else store_get r c end.
+
+(* Spec clauses evaluated directly (not through [allowed]) for attribution *)
+Definition principals_ok (i : inv) (ds : list dlg) : bool :=
+  negb (match ds with [] => true | _ => false end) &&
+  (fix go (iss : str) (ds : list dlg) : bool :=
+     match ds with [] => true | d :: r => str_eqb (d_aud d) iss && str_eqb (d_sub d) (i_sub i) && go (d_iss d) r end) (i_iss i) ds &&
+  match last_opt ds with Some l => str_eqb (d_iss l) (d_sub l) | None => false end.
+Definition commands_ok (i : inv) (ds : list dlg) : bool :=
+  (fix go (c : str) (ds : list dlg) : bool :=
+     match ds with [] => true | d :: r => list_prefixb (segments (d_cmd d)) (segments c) && go (d_cmd d) r end) (i_cmd i) ds.
+Definition policies_ok (a : node) (ds : list dlg) : bool :=
+  forallb (fun d => forallb (fun s => pass_match (ev s a)) (d_pol d)) ds.
+Definition time_ok (now : Z) (i : inv) (ds : list dlg) : bool :=
+  inv_valid_at now i && forallb (dlg_valid_at now) ds.
+(* strictly inside / outside every bound by more than [slack] (the wall clock moves during a run) *)
+Definition clear_of (slack now : Z) (b : option Z) : bool :=
+  match b with None => true | Some x => (slack <? Z.abs (x - now))%Z end.
+
+Definition eng_chain (inp impl : node) : verdict :=
+  match inp with
+  | List [Str op; iv; List st; Int now; hk] =>
+      match store_of_nodes st with
+      | None => bad
+      | Some s =>
+          let i := inv_of_node iv in
+          let ld := store_get s in
+          (* hook: Null = no hook; List [] = hook fails; List [a] = hook returns a *)
+          let args := match hk with List [a] => Some a | List [] => None | _ => Some (i_args i) end in
+          let timeat := str_eqb op (lit "timeat") in
+          let m := if timeat then match load ld (i_prf i) with Some ds => verify_time now i ds | None => false end
+                   else match args with None => false | Some a => allowed_with now ld i a end in
+          let im := nbool impl in
+          let v :=
+            if timeat then
+              match load ld (i_prf i) with
+              | Some ds =>
+                  let strictly t (nbf exp : option Z) :=
+                    (match nbf with Some n => (n <? t)%Z | None => true end && match exp with Some e => (t <? e)%Z | None => true end,
+                     match nbf with Some n => (t <? n)%Z | None => false end || match exp with Some e => (e <? t)%Z | None => false end) in
+                  let all_in := fst (strictly now None (i_exp i)) && forallb (fun d => fst (strictly now (d_nbf d) (d_exp d))) ds in
+                  let some_out := snd (strictly now None (i_exp i)) || existsb (fun d => snd (strictly now (d_nbf d) (d_exp d))) ds in
+                  if (all_in && negb im) || (some_out && im) then [lit "C04"] else []
+              | None => []
+              end
+            else
+            match args, load ld (i_prf i) with
+            | Some a, Some ds =>
+                let valid_cmds := validb (i_cmd i) && forallb (fun d => validb (d_cmd d)) ds in
+                let far := clear_of 60000000000 now (i_exp i) &&
+                           forallb (fun d => clear_of 60000000000 now (d_nbf d) && clear_of 60000000000 now (d_exp d)) ds in
+                let p1 := principals_ok i ds in
+                let p2 := negb valid_cmds || commands_ok i ds in
+                let p3 := policies_ok a ds in
+                let p4 := negb far || time_ok now i ds in
+                if im then
+                  (if p1 then [] else [lit "C01"]) ++ (if p2 then [] else [lit "C02"]) ++
+                  (if p3 then [] else [lit "C03"]) ++ (if p4 then [] else [lit "C04"])
+                else
+                  if p1 && valid_cmds && commands_ok i ds && p3 && far && time_ok now i ds then [lit "C05"] else []
+            | _, _ => if im then [lit "C01"] else []     (* unloadable delegation / failed hook, yet allowed *)
+            end in
+          {| model_obs := Bool m; violated := v |}
+      end
+  (* single token timeline: ["valid"; kind; nbf; exp; t] -> IsValidAt(t) *)
+  | List [Str op; nbf; exp; Int t] =>
+      let m := valid_at (oz nbf) (oz exp) t in
+      let inside := match oz nbf with Some n => (n <? t)%Z | None => true end && match oz exp with Some e => (t <? e)%Z | None => true end in
+      let outside := match oz nbf with Some n => (t <? n)%Z | None => false end || match oz exp with Some e => (e <? t)%Z | None => false end in
+      {| model_obs := Bool m;
+         violated := if (inside && negb (nbool impl)) || (outside && nbool impl) then [lit "C04"] else [] |}
+  | _ => bad
+  end.
+
 (* ---------------- dispatcher ---------------- *)
 Definition engines : list (str * (node -> node -> verdict)) :=
   [ (lit "command", eng_command); (lit "glob", eng_glob);
     (lit "selector", eng_selector);
-    (lit "policy", eng_policy) ].
+    (lit "policy", eng_policy);
+    (lit "chain", eng_chain) ].
 
 Fixpoint find_engine (e : str) (l : list (str * (node -> node -> verdict))) : option (node -> node -> verdict) :=
   match l with
